@@ -331,6 +331,9 @@ class Emitter:
             t = env.fresh()
             lines = self.cvalue(e, env, hint)
             ty = self._last_value_ty
+            if k == "block":
+                # a statement sequence needs its own `do` (an `if` / `match` is a single do-element)
+                return Code(t, ty, [f"let {t} ← do", lines])
             return Code(t, ty, [f"let {t} ←", lines])
         if k == "struct":
             h = getattr(self.u, "struct_handler", None)
@@ -1189,6 +1192,14 @@ class Emitter:
               and pat[0] == "ptuple" and len(pat[1]) == 2)
         plain = it[0] == "mcall" and it[2] == "iter" and not it[3]
         rev = it[0] == "mcall" and it[2] == "rev" and it[1][0] == "mcall" and it[1][2] == "iter"
+        # units with `for_slices`: `for x in xs` over a slice variable `xs: &[T]` (elements of type `T`, by reference)
+        direct = None
+        if not (ok or plain or rev) and getattr(self.u, "for_slices", False) and it[0] == "path":
+            m = re.fullmatch(r"\[(.*)\]", (self.tyof(it, env) or "").replace(" ", ""))
+            direct = m.group(1) if m else None
+        if direct:
+            return self.cfor_elems(e, env, label, lname_, muts, caps, mu, cap_binders, cap_args, gen, gen_arg, mut_pat,
+                                   self.cexpr(it, env), direct)
         if not (ok or plain or rev):
             raise TErr(f"{self.u.name}::{env.fn.name}: only `for (i, &x) in xs.iter().enumerate()`, `for x in xs.iter()` and `for x in xs.iter().rev()` are translated")
         if ok:
@@ -1199,6 +1210,15 @@ class Emitter:
             if rev:
                 xs = Code(f"({xs.val}).reverse", xs.ty, xs.pre)
             ip, xp = ("pbind", env.fresh("i"), False, False, None), pat
+        return self.cfor_tail(e, env, label, lname_, muts, caps, mu, cap_binders, cap_args, gen, gen_arg, mut_pat, xs, ip, xp, "u8")
+
+    def cfor_elems(self, e, env, label, lname_, muts, caps, mu, cap_binders, cap_args, gen, gen_arg, mut_pat, xs, elem_ty):
+        """`for x in xs` over a slice of `elem_ty` (units with `for_slices`)."""
+        return self.cfor_tail(e, env, label, lname_, muts, caps, mu, cap_binders, cap_args, gen, gen_arg, mut_pat, xs,
+                              ("pbind", env.fresh("i"), False, False, None), e[1], elem_ty)
+
+    def cfor_tail(self, e, env, label, lname_, muts, caps, mu, cap_binders, cap_args, gen, gen_arg, mut_pat, xs, ip, xp, elem_ty):
+        body = e[3]
         while xp[0] == "pref":
             xp = xp[1]
         if ip[0] != "pbind" or xp[0] != "pbind":
@@ -1206,7 +1226,7 @@ class Emitter:
         sub = env.child()
         iv, xv = lname(ip[1]), lname(xp[1])
         sub.vars[ip[1]] = (iv, "usize")
-        sub.vars[xp[1]] = (xv, "u8")
+        sub.vars[xp[1]] = (xv, elem_ty)
         rest_v = env.fresh("rest")
         call = f"{lname_}{gen_arg}{cap_args} {rest_v} ({iv} + 1)"
         sub.loop = dict(muts=muts, label=label, call=call)
@@ -1217,7 +1237,7 @@ class Emitter:
         if not ends_in_jump(lines):
             lines += [f"{call} {mut_pat}"]
         ret = self.ret_lean_cur
-        aux = [f"def {lname_}{gen}{cap_binders} : List UInt8 → Nat → {mu} → {self.u.monad} (Ctl {mu} ({ret}))",
+        aux = [f"def {lname_}{gen}{cap_binders} : List {self.lean_type(elem_ty)} → Nat → {mu} → {self.u.monad} (Ctl {mu} ({ret}))",
                f"  | [], _, {mut_pat} => pure (Ctl.brk {mut_pat})",
                f"  | {xv} :: {rest_v}, {iv}, {mut_pat} => do"] + flatten(lines, 2)
         env.aux.append("\n".join(aux))
